@@ -1,6 +1,7 @@
 package rules
 
 import (
+	"strings"
 	"cachelint/internal/core"
 
 	"golang.org/x/tools/go/ssa"
@@ -29,7 +30,7 @@ type LockFacts struct {
 // lockFacts runs the pairing automaton: acquire only when free, release only the held lock.
 func lockFacts(r *Run, f *ssa.Function, sp core.Spec) *LockFacts {
 	lf := &LockFacts{F: f, Spec: sp, At: map[ssa.Instruction]map[LS]bool{}, RootOf: map[string]ssa.Value{}}
-	m := &core.Machine[LS]{P: r.P, Fn: f, Spec: sp}
+	m := &core.Machine[LS]{P: r.P, Fn: f, Spec: sp, Inline: helperInline(r)}
 	m.Step = func(ctx *core.Ctx[LS], s LS, in ssa.Instruction) []LS {
 		set := lf.At[in]
 		if set == nil {
@@ -56,6 +57,15 @@ func lockFacts(r *Run, f *ssa.Function, sp core.Spec) *LockFacts {
 			return []LS{s}
 		}
 		lf.Events++
+		if ctx.Frame != nil {
+			// inside an inlined helper: name the lock in the caller's terms
+			canon, _ := core.CanonIn(ctx.Frame, ev.AddrV)
+			if len(ev.Extra) > 0 {
+				canon += "." + strings.Join(ev.Extra, ".")
+			}
+			ev.Canon = canon
+			ev.AddrV = core.ResolveIn(ctx.Frame, core.Addr(ev.AddrV).Root)
+		}
 		lf.RootOf[ev.Canon] = ev.AddrV
 		switch {
 		case ev.Class == "bucket" && ev.Acquire:
